@@ -794,6 +794,25 @@ fn run_x2(ctx: &Ctx) -> Outcome {
     out
 }
 
+/// C17's clause "a GOAWAY from the peer surfaces on every handle of the affected streams with the peer's exact code, origin
+/// and debug data" is decided by the client model above; C17 runs it (depth 6) and takes over the rules that express it.
+pub fn goaway_surfacing_for_c17(ctx: &Ctx, out: &mut Outcome, vios: &mut VioSet) {
+    let quick = ctx.tier.is_quick();
+    let m = ClientGoaway::new(if quick { "client-goaway-q" } else { "client-goaway-t" }, quick);
+    let deadline = ctx.elapsed() + if quick { 6.0 } else { 120.0 };
+    let rep = search(ctx, &m, "C15", if quick { 6 } else { 8 }, deadline, true);
+    out.harness("peer-goaway-surfacing (client model of C15)", json!({"completed_depth": rep.completed_depth, "executions": rep.execs, "states": rep.states}));
+    out.add_count("evaluations", rep.execs);
+    out.add_count("traces_validated_against_impl", rep.execs);
+    out.add_count("transitions", rep.transitions);
+    for mut x in rep.agg.vios.into_vec() {
+        if ["C15.stream-above-goaway-wrong-error", "C15.debug-data-lost", "C15.connection-result"].contains(&x.rule.as_str()) {
+            x.rule = x.rule.replace("C15.", "C17.goaway-");
+            vios.add(x);
+        }
+    }
+}
+
 pub fn replay(v: &serde_json::Value) -> Option<bool> {
     let h = v["harness"].as_str().unwrap_or("");
     for quick in [true, false] {
